@@ -67,7 +67,7 @@ func BroadWeights() map[string]int {
 		"metanodestatus": 1, "removenode": 1, "segregate": 1, "nodetmpindex": 1, "verifydatanode": 1, "expandgroups": 2, "marktakeover": 1, "markbalancer": 1,
 		"updateptinfo": 3, "updateptversion": 1, "createevent": 2, "updateevent": 1, "removeevent": 1, "updatereplication": 1,
 		"createstream": 2, "dropstream": 1, "createcq": 2, "dropcq": 1, "cqreport": 1, "cqlease": 1, "createsub": 2, "dropsub": 1,
-		"createdownsample": 2, "dropdownsample": 1, "registerqueryid": 1, "insertfiles": 1, "resharding": 1, "mergeshards": 1,
+		"createdownsample": 2, "dropdownsample": 1, "registerqueryid": 1, "insertfiles": 1, "resharding": 3, "mergeshards": 3,
 	}
 }
 
@@ -566,6 +566,7 @@ func (g *Gen) gen(t *rapid.T, kind string) {
 			op = Op{K: kind, DB: db, RP: pick(t, rpPool, "rpPool"), B: ui(t, 0, 4, "tagarr") == 0,
 				Dur: optDur(t, rpDurs, 50, "dur"), SGDur: optDur(t, sgDurs, 60, "sgdur"), Hot: optDur(t, tierDurs, 10, "hot"), Warm: optDur(t, tierDurs, 10, "warm"),
 				IGDur: optDur(t, igDurs, 20, "igdur"), ICold: optDur(t, tierDurs, 5, "icold"), Merge: optDur(t, igDurs, 8, "merge")}
+			g.mergeDur(t, &op)
 			if ui(t, 0, 3, "dbski") == 0 {
 				op.SS, op.S = []string{pick(t, tagPool, "sk")}, "hash"
 			}
@@ -602,6 +603,7 @@ func (g *Gen) gen(t *rapid.T, kind string) {
 		op := Op{K: kind, DB: g.anyDB(t), RP: pick(t, rpPool, "rpPool"), B: ui(t, 0, 3, "default") == 0,
 			Dur: optDur(t, rpDurs, 60, "dur"), SGDur: optDur(t, sgDurs, 60, "sgdur"), Hot: optDur(t, tierDurs, 10, "hot"), Warm: optDur(t, tierDurs, 10, "warm"),
 			IGDur: optDur(t, igDurs, 20, "igdur"), ICold: optDur(t, tierDurs, 5, "icold"), Merge: optDur(t, igDurs, 8, "merge")}
+		g.mergeDur(t, &op)
 		if !op.ClientAccepts() {
 			g.Excluded["client-rejects-rp-spec"]++
 			return
@@ -958,7 +960,18 @@ func (g *Gen) gen(t *rapid.T, kind string) {
 				id = g.staleID(t, g.everSG)
 			}
 			split := last.StartTime.UnixNano() + int64(last.EndTime.Sub(last.StartTime))/2
-			nb := ui(t, 1, int(d.ClusterPtNum)-1, "nbounds")
+			// the split never asks for more shards than the policy's index groups have indexes (the sender's own rule is not
+			// known to the harness; CreateShardGroupWithBounds indexes igi.Indexes by partition id)
+			maxShards := int(d.ClusterPtNum)
+			for i := range r.info.IndexGroups {
+				if n := len(r.info.IndexGroups[i].Indexes); n < maxShards {
+					maxShards = n
+				}
+			}
+			if maxShards < 2 {
+				continue
+			}
+			nb := ui(t, 1, maxShards-1, "nbounds")
 			var bounds []string
 			for i := 0; i < nb; i++ {
 				bounds = append(bounds, fmt.Sprintf("k%d", i))
@@ -1027,11 +1040,25 @@ func (g *Gen) gen(t *rapid.T, kind string) {
 			return
 		}
 		db := pick(t, dbs, "ptdb")
+		wantPt := -1
+		if kind == "updateevent" && len(d.MigrateEvents) > 0 && ui(t, 0, 4, "evExisting") > 0 {
+			var evs []string
+			for k := range d.MigrateEvents {
+				evs = append(evs, k)
+			}
+			sort.Strings(evs)
+			if p := d.MigrateEvents[pick(t, evs, "evRef")].GetPtInfo(); p != nil && p.Pti != nil && int(p.Pti.PtId) < len(d.PtView[p.Db]) {
+				db, wantPt = p.Db, int(p.Pti.PtId)
+			}
+		}
 		pts := d.PtView[db]
 		if len(pts) == 0 {
 			return
 		}
 		p := pts[ui(t, 0, len(pts)-1, "pt")]
+		if wantPt >= 0 {
+			p = pts[wantPt]
+		}
 		switch kind {
 		case "updateptversion":
 			ptid := int64(p.PtId)
@@ -1152,6 +1179,17 @@ func (g *Gen) gen(t *rapid.T, kind string) {
 		g.emit(Op{K: kind, Name: fmt.Sprintf("127.0.0.%d:8086", g.nodeAddr(t))})
 	default:
 		panic("harness: no generator for kind " + kind)
+	}
+}
+
+// mergeDur makes shard-merge policies reachable: CheckSpecValid accepts a merge duration only when it is a multiple of the shard
+// duration and equal to the index duration.
+func (g *Gen) mergeDur(t *rapid.T, op *Op) {
+	if op.SGDur != nil && *op.SGDur >= hour && *op.SGDur <= 4*hour && ui(t, 0, 3, "withMerge") == 0 {
+		m := *op.SGDur * int64(pick(t, []int{2, 4}, "mergeFactor"))
+		op.Merge, op.IGDur = &m, &m
+	} else if op.Merge != nil {
+		op.IGDur = op.Merge
 	}
 }
 
